@@ -10,3 +10,6 @@ def run(ctx, rep):
     sing = lambda kw: kw["finfo"] == "SING"
     driver.rule_expert_table(mod, rep, "C06", partition_filter=sing, rule="X-SING")
     driver.rule_simple_table(mod, rep, {"gstrs", "B-store"}, rule="S-SING")
+    from ..rules import more
+    more.rule_sing_init(mod, rep)
+    more.rule_lsub_request(mod, rep)
